@@ -85,6 +85,56 @@ def helper_run(B, fname, tree, assume, profile="dev"):
     return val, panic
 
 
+def small_trees(B, rep, max_leaves):
+    nl = Adt("FormatElement", "Special", [Adt("FormatSpecial", "Newline")])
+    nm = Adt("FormatElement", "Field", [Adt("FormatField", "Name")])
+    leaves = [  # (sexpr, value, is action, needs framing)
+        ('(s "-true")', Adt("Expression", "Test", [Adt("Test", "True")]), False, False),
+        ('(s "-print")', Adt("Expression", "Action", [Adt("Action", "Print")]), True, False),
+        ('(s "-print0")', Adt("Expression", "Action", [Adt("Action", "PrintNull")]), True, True),
+        ('(s "-fprint out")', Adt("Expression", "Action", [Adt("Action", "FilePrint", [StringV.of("out")])]), True, True),
+        ("(printf (field Name) (special Newline))", Adt("Expression", "Action", [Adt("Action", "PrintFormatted", [VecV([nm, nl])])]), True, False),
+        ("(printf (special Newline) (field Name))", Adt("Expression", "Action", [Adt("Action", "PrintFormatted", [VecV([nl, nm])])]), True, True),
+        ('(s "-quit")', Adt("Expression", "Action", [Adt("Action", "Quit")]), True, False),
+    ]
+    by_n = {1: leaves}
+    allt = list(leaves)
+    for n in range(2, max_leaves + 1):
+        cur = []
+        for k in range(1, n):
+            for a_ in by_n[k]:
+                for b_ in by_n[n - k]:
+                    for v, nm_ in (("And", "and"), ("Or", "or"), ("List", "list")):
+                        cur.append(("(%s %s %s)" % (nm_, a_[0], b_[0]), op(v, a_[1], b_[1]), a_[2] or b_[2], a_[3] or b_[3]))
+        by_n[n] = cur
+        allt += cur
+    allt += [("(not %s)" % t[0], op("Not", t[1]), t[2], t[3]) for t in allt if t[0].count("(s ") + t[0].count("(printf") < max_leaves]
+    E = B.engine("dev")
+    n = 0
+    for sx, tree, want_act, want_cf in allt:
+        for fname, want, key in (("Expression::action", want_act, "action"), ("Expression::complex_frames", want_cf, "complex")):
+            f, env = E._resolve(fname, {})
+            I = E.fresh()
+            try:
+                outs = I.call_fn(f, [ValRef(tree)], St(), env)
+            except Unsupported as e:
+                raise Inconclusive("unsupported construct while encoding %s: %s" % (fname, e))
+            n += 1
+            got = None
+            if len(outs) == 1 and not isinstance(outs[0][1], Panic) and isinstance(outs[0][1], bool):
+                got = outs[0][1]
+            if got is not want:
+                d = B.ctx.run_native_trees([sx])[0]
+                if d.get(key) == str(want).lower():
+                    rep.inconclusive.append("small tree %s: model %s, native build agrees with the rule" % (sx, got))
+                else:
+                    rep.violation("helper:%s:small-tree" % key, "%s on %s: native %s, the rule says %s" % (key, sx, d.get(key), str(want).lower()),
+                                  dict(sexpr=sx, helper=fname.split("::")[-1], expected=str(want).lower(), native=d))
+    B.fn_seen |= I.stats["fns"]
+    rep.query("small-trees", "unsat", 0.0, trees=len(allt))
+    return len(allt)
+
+
 def zb(x):
     return z3.BoolVal(x) if isinstance(x, bool) else x
 
@@ -137,11 +187,20 @@ def run(ctx, rep, tier):
     if extra:
         rep.inconclusive.append("Action variants without a specification entry: %s" % sorted(extra))
     n_ob = 0
+    inductive_na = []
     for label, tree, sa, sc, assume in cases:
         for fname, specv in (("Expression::action", sa), ("Expression::complex_frames", sc)):
             if specv is None:
                 continue
-            val, panic = helper_run(B, fname, tree, assume)
+            try:
+                val, panic = helper_run(B, fname, tree, assume)
+            except Inconclusive as e:
+                if label.startswith("op:") and "subtree" in str(e):
+                    # the helper inspects its operand instead of calling itself on it (e.g. an explicit work list): the inductive
+                    # step over opaque subtrees does not apply to that code; the claim for it is the bounded one (small trees)
+                    inductive_na.append("%s:%s" % (label, fname.split("::")[-1]))
+                    continue
+                raise
             bad = b_or(panic, z3.Xor(zb(val), zb(specv)) if is_sym(val) or is_sym(specv) else (val != specv))
             res, m = B.solve("%s:%s" % (label, fname.split("::")[-1]), assume, bad)
             n_ob += 1
@@ -149,7 +208,11 @@ def run(ctx, rep, tier):
                 got = eval_guard(m, val) if not eval_guard(m, panic) else "panic"
                 want = eval_guard(m, zb(specv))
                 report_tree(B, rep, label, fname, tree, m, got, want)
-    samples.append(dict(kind="tree helpers", obligations=n_ob, cases=[c[0] for c in cases][:12]))
+    samples.append(dict(kind="tree helpers", obligations=n_ob, cases=[c[0] for c in cases][:12], inductive_step_not_applicable=inductive_na))
+    # ---- every concrete tree of up to 3 leaves over representative leaves: does not rely on the helpers being recursive (an
+    # iterative rewrite with a work list is executed like any other code); the rule is evaluated by structural recursion here
+    n_small = small_trees(B, rep, 3 if tier == "quick" else 4)
+    samples.append(dict(kind="small trees", trees=n_small))
     # ---- unit helpers, both profiles
     for profile in ("dev", "rel"):
         for v, unit in SIZE_UNITS.items():
